@@ -6,6 +6,7 @@ generate -> parse -> generate is recorded and validated by TLC: the SPEC's lexer
 text (the generator is judged against the grammar independently of the real parser), the real parser accepts it,
 the re-parsed circuit projects to the same AST, compares == and has the same meaning, and the second text equals
 the first byte for byte."""
+import os
 import random
 
 from . import core, passes, impl, project, render, gates
@@ -68,6 +69,11 @@ def main(tier):
     for f in rep.findings:
         if 'witness' in f and 'text' in f['witness']:
             jobs.append({'id': 'witness/' + f['id'], 'prog': dict(passes.EMPTY_PROG), 'route': 'text', 'text': f['witness']['text']})
+    # every example file of the repository takes the same trip (ids end in /text: judged with the text route)
+    for path in passes.corpus_files():
+        jobs.append({'id': 'corpus/%s/text' % os.path.basename(path)[:-6], 'prog': dict(passes.EMPTY_PROG), 'route': 'text',
+                     'text': open(path).read()})
+    rep.cov['repository_example_files'] = len(passes.corpus_files())
     rep.phase('tlc_enumeration')
     recs = core.pool_map(run_rt, jobs, chunksize=100)
     skipped = [r for r in recs if r['kind'] == 'skip']
